@@ -380,3 +380,23 @@ Proof.
   - reflexivity.
   - intros _. left. reflexivity.
 Qed.
+
+(* The STRING-level reading ("every accepted string is an issued token string") is false, also
+   under the authenticity hypothesis: base64 decoding ignores CR/LF (and the unused bits of a
+   padded quantum), so tok ++ "\n" is accepted.  It carries the same ciphertext and resolves to
+   the same position (tamper_rejected speaks about ciphertext bytes for this reason). *)
+Theorem token_string_uniqueness_refuted :
+  exists seal aopen issued, aead_authentic seal aopen issued /\
+  exists n u t s,
+    s <> issue_token seal gcm_b64 n u t /\
+    read_changes_resume aopen gcm_b64 t (issue_token seal gcm_b64 n u t) = RFrom u /\
+    read_changes_resume aopen gcm_b64 t s = RFrom u.
+Proof.
+  exists toy_seal, (toy_open [(ex_nonce, ex_plain)]), (toy_issued [(ex_nonce, ex_plain)]).
+  split; [exact (toy_authentic _)|].
+  exists ex_nonce, ex_ulid, ex_type, (issue_token toy_seal gcm_b64 ex_nonce ex_ulid ex_type ++ [c_lf]).
+  split; [|split].
+  - intro H. apply (f_equal (@length N)) in H. rewrite app_length in H. simpl in H. lia.
+  - vm_compute. reflexivity.
+  - vm_compute. reflexivity.
+Qed.
